@@ -62,7 +62,7 @@ type vkNode struct {
 var vkFieldNames = []string{"Key", "Keys", "Nested", "Items", "Name", "Val", "Num", "Ptr", "Any", "Tags", "Arr", "Deep", "Id", "Flag"}
 
 type vkGen struct {
-	rng   *vRand
+	rng    *vRand
 	ifaceT []*vkType // candidate dynamic types for interface values
 }
 
